@@ -139,7 +139,8 @@ func checkElements(m *Model, in, out string, inToks, outToks []tok) error {
 		for j < len(inToks) {
 			x := inToks[j]
 			j++
-			if isTag(x) && x.Name == t.Name && x.Type == t.Type {
+			// an opening tag may be re-serialised as start or self-closing; an end tag stays an end tag
+			if isTag(x) && x.Name == t.Name && isOpenTag(x) == isOpenTag(t) {
 				found = true
 				break
 			}
